@@ -103,6 +103,73 @@ func (q *c16Qual) qualify(n *pgNode, bound []string, ctx c16Use) (*pgNode, *pgNo
 	return &a, &b
 }
 
+// ---------- explicit uses of the map argument mixed with implicit attribute uses ----------
+
+// c16Explicit rewrites some free attribute uses of the program into forms that MENTION THE MAP ARGUMENT BY NAME
+// (legal in implicit-attribute mode, and left as they are by qualification): mq.x, mq.get("x"), an alias
+// let k = mq; k.x, mq returned from a closure, mq passed to a function, "x" ~ mq as a condition, mq.size()
+// in an arithmetic term.  Returns the new tree and the forms used.
+func c16Explicit(r *Rng, t *pgNode, intAttrs map[string]bool) (*pgNode, map[string]bool) {
+	used := map[string]bool{}
+	alias := false
+	var walk func(n *pgNode, bound []string, callee bool) *pgNode
+	walk = func(n *pgNode, bound []string, callee bool) *pgNode {
+		with := func(names ...string) []string { return append(append([]string{}, bound...), names...) }
+		if n.K == "ident" {
+			if callee || !c16IsAttr(n.Name, bound) || !r.Chance(0.55) {
+				return n
+			}
+			x := n.Name
+			m := func() *pgNode { return pgNId(c16Map) }
+			forms := []string{"member", "get", "alias", "closure-returns-map", "map-passed-to-function", "contains-condition"}
+			if intAttrs[x] {
+				forms = append(forms, "size-term")
+			}
+			f := forms[r.Pick(len(forms))]
+			used[f] = true
+			switch f {
+			case "member":
+				return pgNMember(m(), x)
+			case "get":
+				return pgNMethod("method", m(), "get", pgNStr(x))
+			case "alias":
+				alias = true
+				return pgNMember(pgNId("k0"), x)
+			case "closure-returns-map":
+				return pgNMember(pgNCall("closure", pgNClo([]string{"u0"}, m()), pgNInt(0)), x)
+			case "map-passed-to-function":
+				return pgNCall("closure", pgNClo([]string{"p0"}, pgNMember(pgNId("p0"), x)), m())
+			case "contains-condition":
+				return pgNIf(pgNOp("~", pgNStr(x), m()), pgNId(x), pgNMember(m(), x))
+			case "size-term":
+				return pgNOp("+", pgNId(x), pgNOp("*", pgNInt(0), pgNMethod("method", m(), "size")))
+			}
+		}
+		c := *n
+		c.Kids = make([]*pgNode, len(n.Kids))
+		for i, k := range n.Kids {
+			bd := bound
+			switch {
+			case n.K == "let" && i == 1:
+				bd = with(n.Name)
+			case n.K == "func" && i == 0:
+				bd = with(append([]string{n.Name}, n.Ps...)...)
+			case n.K == "func" && i == 1:
+				bd = with(n.Name)
+			case n.K == "clo":
+				bd = with(n.Ps...)
+			}
+			c.Kids[i] = walk(k, bd, n.K == "call" && i == 0)
+		}
+		return &c
+	}
+	out := walk(t, nil, false)
+	if alias {
+		out = pgNLet("k0", pgNId(c16Map), out)
+	}
+	return out, used
+}
+
 // ---------- the parser's ASTs with descriptive constants (for the parser model) ----------
 
 var c16Dump *value.FunctionGenerator
@@ -195,8 +262,9 @@ func c16RunImpl(fg *value.FunctionGenerator, text string, withMap bool, maps []*
 // ---------- one case ----------
 
 type c16Program struct {
-	P     *pgProgram `json:"program"`
-	Reprs []string   `json:"reprs"` // representation of the map argument per tuple
+	P        *pgProgram `json:"program"`
+	Reprs    []string   `json:"reprs"`              // representation of the map argument per tuple
+	Explicit []string   `json:"explicit,omitempty"` // forms in which the program mentions the map argument by name
 }
 
 type c16Run struct {
@@ -268,6 +336,30 @@ func (r *c16Run) runCase(cp *c16Program, id int) {
 	sum.Count("nodes", bucket(p.T.Count()))
 	sum.Count("attributes_in_map", fmt.Sprint(len(p.ArgNames)))
 	sum.Count("attribute_uses", bucket(len(q.uses)))
+	if len(cp.Explicit) > 0 {
+		sum.Count("mentions_map_by_name", "yes")
+		for _, f := range cp.Explicit {
+			sum.Count("explicit_map_use", f)
+		}
+		depth := 0
+		var walkDepth func(n *pgNode, d int)
+		walkDepth = func(n *pgNode, d int) {
+			if n.K == "ident" && n.Name == c16Map && d > depth {
+				depth = d
+			}
+			for _, k := range n.Kids {
+				dd := d
+				if n.K == "clo" || (n.K == "func" && k == n.Kids[0]) {
+					dd++
+				}
+				walkDepth(k, dd)
+			}
+		}
+		walkDepth(p.T, 0)
+		sum.Count("explicit_map_use_max_closure_or_func_depth", fmt.Sprint(depth))
+	} else {
+		sum.Count("mentions_map_by_name", "no")
+	}
 	deep := false
 	for _, u := range q.uses {
 		d := fmt.Sprint(u.closures)
@@ -391,6 +483,12 @@ func c16Corpus() []*c16Program {
 		return &c16Program{P: &pgProgram{T: t, ArgNames: names, Tuples: tuples, Stream: "corpus"}, Reprs: []string{"listmap", "real", "funcmap"}}
 	}
 	a, e := func() *pgNode { return pgNId("a") }, func() *pgNode { return pgNId("e") }
+	mqn := func() *pgNode { return pgNId(c16Map) }
+	mkx := func(t *pgNode, names []string, tuples ...[]*Tree) *c16Program {
+		cp := mk(t, names, tuples...)
+		cp.Explicit = []string{"corpus"}
+		return cp
+	}
 	la := []string{"l", "a"}
 	lt := [][]*Tree{{tl(1, 2, 3), ti(10)}, {tl(), ti(1)}, {tl(5), ti(-2)}}
 	return []*c16Program{
@@ -412,6 +510,20 @@ func c16Corpus() []*c16Program {
 		mk(pgNOp("+", pgNId("pi"), pgNCall("static", pgNId("sqr"), a())), []string{"pi", "sqr", "a"}, []*Tree{ti(3), ti(4), ti(5)}, []*Tree{ti(0), ti(1), ti(2)}),
 		// the attribute called as a function: x(1) stays a call of (m.x), it does not become the method call m.x(1)
 		mk(pgNCall("closure", a(), pgNInt(1)), la, lt...),
+		// the program mentions the map argument by name next to implicit uses: mq.a + a
+		mkx(pgNOp("+", pgNMember(mqn(), "a"), a()), la, lt...),
+		// l.map(e -> mq.a * e + a)
+		mkx(pgNMethod("method", pgNId("l"), "map", pgNClo([]string{"e"}, pgNOp("+", pgNOp("*", pgNMember(mqn(), "a"), e()), a()))), la, lt...),
+		// let k = mq; k.a * a
+		mkx(pgNLet("k", mqn(), pgNOp("*", pgNMember(pgNId("k"), "a"), a())), la, lt...),
+		// (e -> mq)(0).a + a     the map returned from a closure
+		mkx(pgNOp("+", pgNMember(pgNCall("closure", pgNClo([]string{"e"}, mqn()), pgNInt(0)), "a"), a()), la, lt...),
+		// mq.get("a") + mq.size() + a ,   if "a" ~ mq then a else 0
+		mkx(pgNOp("+", pgNOp("+", pgNMethod("method", mqn(), "get", pgNStr("a")), pgNMethod("method", mqn(), "size")), a()), la, lt...),
+		mkx(pgNIf(pgNOp("~", pgNStr("a"), mqn()), a(), pgNInt(0)), la, lt...),
+		// func f(n) if n <= 0 then mq.a else a + f(n-1); f(2)    explicit and implicit use inside a recursive func
+		mkx(pgNFunc("f", []string{"n"}, pgNIf(pgNOp("<=", pgNId("n"), pgNInt(0)), pgNMember(mqn(), "a"), pgNOp("+", a(), pgNCall("closure", pgNId("f"), pgNOp("-", pgNId("n"), pgNInt(1))))),
+			pgNCall("closure", pgNId("f"), pgNInt(2))), la, lt...),
 	}
 }
 
@@ -420,12 +532,12 @@ func c16Corpus() []*c16Program {
 func cmdC16(seed int64, tier, outDir string) {
 	c01Setup()
 	c16DumpSetup()
-	n, maxNodes := 450, 36
+	n, maxNodes := 360, 36
 	if tier == "thorough" {
 		n, maxNodes = 30000, 100
 	}
 	sum := NewSummary("C16", seed, tier)
-	sum.Rule = "programs of the C01 generator (operators, let, func with recursion, closures up to 3+ levels, if, switch, try, list/map literals, methods, static functions) whose arguments all become attributes of one map argument; attribute uses at every nesting level (top level, inside 1..3+ closures, inside func bodies, inside lets within call arguments); attribute names that collide with constants (pi), static functions (sqr) and local bindings; 3 maps per program, each in a representation of harness/tree.go (listmap, real, put, merge, replace, eval, map-method, funcmap, funcmap-absent, tomap); GenerateWithMap(exp) against Generate(exp with every free attribute written (m.x)), optimizer on and off. Distinct non-trivial: program texts with >= 1 attribute use inside a closure or func body that generate without error"
+	sum.Rule = "programs of the C01 generator (operators, let, func with recursion, closures up to 3+ levels, if, switch, try, list/map literals, methods, static functions) whose arguments all become attributes of one map argument; attribute uses at every nesting level (top level, inside 1..3+ closures, inside func bodies, inside lets within call arguments); attribute names that collide with constants (pi), static functions (sqr) and local bindings; about a third of the programs also MENTION THE MAP ARGUMENT BY NAME next to the implicit uses, at every nesting level (mq.x, mq.get(\"x\"), let k = mq; k.x, the map returned from a closure, passed to a function, \"x\" ~ mq, mq.size()) - qualification leaves those as they are; 3 maps per program, each in a representation of harness/tree.go (listmap, real, put, merge, replace, eval, map-method, funcmap, funcmap-absent, tomap); GenerateWithMap(exp) against Generate(exp with every free attribute written (m.x)), optimizer on and off. Distinct non-trivial: program texts with >= 1 attribute use inside a closure or func body that generate without error"
 	vops, vun, _, _ := c16Dump.GetParser().VerifParseConfig()
 	var funcs []string
 	for f := range c01Statics {
@@ -467,6 +579,19 @@ func cmdC16(seed int64, tier, outDir string) {
 		id++
 		p := pgGenProgram(r, c01Statics, maxNodes)
 		cp := &c16Program{P: p}
+		if r.Chance(0.6) {
+			ints := map[string]bool{}
+			for j, n := range p.ArgNames {
+				if p.Tuples[0][j].Kind == "int" {
+					ints[n] = true
+				}
+			}
+			t2, forms := c16Explicit(r, p.T, ints)
+			if len(forms) > 0 {
+				p.T = t2
+				cp.Explicit = sortedKeys(forms)
+			}
+		}
 		for range p.Tuples {
 			cp.Reprs = append(cp.Reprs, mapReprs[r.Pick(len(mapReprs))])
 		}
